@@ -111,7 +111,7 @@ def stepPure (toks : List String) : Option String :=
       let tb ← (if hb == "-" then some [] else parseHex hb.toList)
       let a : MintIn := { token2022 := pa, native := na, freeze := fa, tlv := ta, badge := ba }
       let b : MintIn := { token2022 := pb, native := nb, freeze := fb, tlv := tb, badge := bb }
-      pure (match initializePoolV2 (if order = 1 then 2 else 1) (if order = 0 then 2 else 1) a b price ts tierTs fee proto with
+      pure (match initializePoolV2 (if order = 1 then 2 else 1) (if order = 0 || order = 3 then 2 else 1) a b price ts tierTs fee proto (order == 3) with
         | .ok (p, nt) => s!"ok {p.feeRate} {p.protoRate} {p.price} {p.tick} {if nt then 1 else 0}"
         | .error e => "err " ++ e)
   | ["xinitaf", price, order, proto, now, te, authMode, perm, ts, fee, fp, dp, rf, cf, mv, gs, th,
